@@ -59,9 +59,9 @@ class LastDevStream(streams.DevStream):
         return d
 
 
-def judge(data: bytes, cfg: dict, devs=None):
+def judge(data: bytes, cfg: dict, devs=None, kind=None):
     """Run one stream; return (list of (key, detail), nreads, nitems)."""
-    st = LastDevStream(data, devs) if devs else LastStream(data)
+    st = streams.STREAM_KINDS[kind](data) if kind else (LastDevStream(data, devs) if devs else LastStream(data))
     st.last = None
     r = run_reader(data, cfg, stream=st)
     out = []
@@ -78,7 +78,7 @@ def judge(data: bytes, cfg: dict, devs=None):
             pos = i + len(raw)
         if raw_class(raw) == 0:
             out.append(("raw_bad_preamble", f"raw={raw.hex()}"))
-    if r.raised is None and not r.horizon:
+    if r.raised is None and not r.horizon and r.tell is not None:
         if r.tell != len(data):
             last = st.last
             lk = "none" if last is None else f"{last[0]}({'0' if last[1] == 0 else 'n'})->{'0' if last[2] == 0 else 'k'}"
@@ -112,6 +112,42 @@ def judge_socket(data: bytes, cfg: dict, chunk: int, bufsize: int):
     return out, items
 
 
+def judge_pause(data: bytes, cfg: dict, i: int):
+    """The i-th stream call finds the stream momentarily empty; more data follows.  read() may report end of
+    stream then - but it must not go on reporting it once data is there again: the caller keeps calling read()
+    (as one does with a growing file or a polled port) and everything must still be consumed, in order."""
+    from pyubx2 import UBXReader
+    st = streams.PauseStream(data, {i})
+    out, items, eos = [], [], 0
+    try:
+        rd = UBXReader(st, **streams.cfg_kwargs(cfg, (lambda e: None) if cfg.get("handler") else None))
+        while len(items) <= len(data) + 4:
+            raw, parsed = rd.read()
+            if raw is None and parsed is None:
+                if st.tell() >= len(data):
+                    break
+                eos += 1
+                if eos > 3:
+                    out.append(("end_of_stream_reported_while_data_is_available", f"pause at call {i}: tell={st.tell()} of {len(data)} after {eos} end-of-stream reports"))
+                    break
+                continue
+            items.append(raw)
+    except streams.Horizon:
+        out.append(("no_termination|pause", f"pause at call {i}"))
+    except Exception:  # noqa: BLE001  (judged by C08)
+        pass
+    pos = 0
+    for raw in items:
+        j = data.find(raw, pos)
+        if j < 0:
+            out.append(("raw_not_a_slice_in_order|pause", f"raw={raw.hex()[:60]} after={pos}"))
+            break
+        pos = j + len(raw)
+        if raw_class(raw) == 0:
+            out.append(("raw_bad_preamble|pause", f"raw={raw.hex()[:60]}"))
+    return out, items, st
+
+
 SOCK_UNIT = ("Uinf", "Remb", "N1", "Uack", "UinfBad", "R1")
 
 
@@ -126,6 +162,10 @@ def replay_case(case):
         a = engine.Acc()
         eval_block(("sessions", case["a"]), a)
         return [(k, v[2]) for k, v in a.viol.items()]
+    if "pause" in case:
+        return judge_pause(bytes.fromhex(case["stream"]), case["cfg"], case["pause"])[0]
+    if case.get("stream_kind"):
+        return [(k + f"|stream={case['stream_kind']}", d) for k, d in judge(bytes.fromhex(case["stream"]), case["cfg"], None, case["stream_kind"])[0]]
     data = bytes.fromhex(case["stream"])
     devs = {int(k): v for k, v in case["devs"].items()} if case.get("devs") else None
     out, _ = judge(data, case["cfg"], devs)
@@ -167,6 +207,34 @@ def eval_block(block, acc):
                             acc.violation("raw_not_a_slice|second_socket_session", {"kind": "sessions", "a": a_tok, "b": b_tok, "chunk": chunk, "bufsize": bufsize}, f"raw={raw.hex()[:40]} not in this session's data")
                             break
                         pos = i + len(raw)
+        return
+    elif kind == "pause":
+        first = block[1]
+        for seq in [(first,)] + [(first, t) for t in streams.FRAME_TOKENS + streams.NOISE_TOKENS]:
+            data = streams.seq_bytes(seq)
+            for cfg in COVER[:2] + [COVER[3]]:
+                _, r0 = judge(data, cfg)
+                for i in range(r0.calls + 1):
+                    out, items, st = judge_pause(data, cfg, i)
+                    acc.evaluations += 1
+                    acc.transitions += len(items) + 1
+                    acc.outcomes[(len(items), ("pause", st.paused))] += 1
+                    for key, detail in out:
+                        acc.violation(key, {"pause": i, "stream": data.hex(), "cfg": cfg}, detail)
+        return
+    elif kind == "kinds":
+        # other kinds of stream object: BufferedReader (peek/read1), pipe-like (seek/tell raise), read/readline-only
+        first = block[1]
+        for seq in [(first,)] + [(first, t) for t in streams.FRAME_TOKENS + streams.NOISE_TOKENS + streams.FRAG_TOKENS] + [(t, first) for t in streams.NOISE_TOKENS + streams.FRAG_TOKENS]:
+            data = streams.seq_bytes(seq)
+            for sk in ("buffered", "nonseekable", "minimal"):
+                for cfg in COVER[:3]:
+                    out, r = judge(data, cfg, None, sk)
+                    acc.evaluations += 1
+                    acc.transitions += len(r.items) + 1
+                    acc.outcomes[(len(r.items), ("kind-" + sk,))] += 1
+                    for key, detail in out:
+                        acc.violation(key + f"|stream={sk}", {"stream": data.hex(), "cfg": cfg, "stream_kind": sk}, detail)
         return
     elif kind == "sock":
         # sequences of <= 2 tokens through a socket: fixed recv chunks x receive buffer sizes
@@ -265,6 +333,8 @@ def run_tier(tier, t0):
     blocks += [("short", f) for f in streams.FRAME_TOKENS]
     blocks += [("sessions", f) for f in ("Uack", "N1", "R1")]
     blocks += [("sock", f) for f in streams.FRAME_TOKENS]
+    blocks += [("kinds", f) for f in streams.FRAME_TOKENS]
+    blocks += [("pause", f) for f in streams.FRAME_TOKENS]
     blocks += [("socklong", i) for i in range(16)]
     acc = engine.sweep(blocks, eval_block)
     engine.finish(
@@ -280,6 +350,8 @@ def run_tier(tier, t0):
             "io.BytesIO models the underlying stream; tell()==len(S) means no data left",
             "pynmeagps.NMEA_HDR defines the NMEA preambles",
             "an exception or livelock ends the run and is judged by C08, not here",
+            "pause ring (one deviation): for token sequences of <= 2, the i-th stream call finds the stream momentarily empty (answered b'' although more data follows), for every i; the caller keeps calling read(): everything must still be consumed, in order, and end-of-stream must not be reported more than 3 times while data is available",
+            "stream-kind ring: token sequences of <= 2 through a BufferedReader, a pipe-like stream and a read/readline-only object",
             "socket ring: token sequences of <= 2 through fixed recv chunks 1,3,7,64 x bufsize 4,8,16,4096; a > 8 KiB stream at every alignment to the default 4096-byte buffer (slice clauses only; item equality with a file stream is C10's job)",
             "extra ring: every single short read (one stream call answered with 1-2 bytes although more data follows) on token sequences of <= 2",
         ],
